@@ -37,7 +37,8 @@ def required_buckets(tier):
             'C14/conc/M', 'C14/conc/m', 'C14/conc/denominator_value', 'C14/api/container', 'C14/api/transfer', 'C14/api/cross_numerator/create_solution_from_container', 'C14/api/cross_numerator/dilute',
             'C14/api/fill_to', 'C14/api/create_solution', 'C14/api/create_solution_multi', 'C14/api/capacity', 'C14/api/dilute']
     for fam in ('missing_space', 'double_space', 'leading_space', 'trailing_space', 'unknown_unit', 'unknown_prefix',
-                'wrong_case', 'missing_number', 'non_numeric', 'extra_tokens', 'empty', 'wrong_dimension'):
+                'wrong_case', 'missing_number', 'non_numeric', 'extra_tokens', 'empty', 'wrong_dimension', 'ratio_as_quantity',
+                'unit_inside_unit'):
         req.append(f'C14/malformed/{fam}')
     return req
 
@@ -158,8 +159,13 @@ def malformed_quantities(rng, n):
         v = f'{rng.uniform(0.1, 100):.4g}'
         u = rng.choice(['mL', 'g', 'mmol', 'uL', 'kg', 'L', 'mol'])
         fam = rng.choice(['missing_space', 'double_space', 'leading_space', 'trailing_space', 'unknown_unit', 'unknown_prefix',
-                          'wrong_case', 'missing_number', 'non_numeric', 'extra_tokens', 'empty'])
-        s = {'missing_space': f'{v}{u}', 'double_space': f'{v}  {u}', 'leading_space': f' {v} {u}', 'trailing_space': f'{v} {u} ',
+                          'wrong_case', 'missing_number', 'non_numeric', 'extra_tokens', 'empty', 'ratio_as_quantity',
+                          'unit_inside_unit'])
+        s = {'ratio_as_quantity': f'{v} ' + rng.choice(['mg/g', 'mL/L', 'mol/mol', 'uL/mL', 'g/g', 'g/L', 'mol/L', 'mmol/kg', 'L/L', 'M', 'mM', 'm',
+                                                        '%w/w', '%v/v', 'U/mL', 'U/g']),
+             # a base unit spelt twice / buried in a longer token ('gg', 'mLL', 'molmol', 'Lg'): not a unit
+             'unit_inside_unit': f'{v} ' + rng.choice(['gg', 'mLL', 'molmol', 'Lg', 'gL', 'mgg', 'LL', 'umolmol', 'g-g', 'mL.L', 'MM']),
+             'missing_space': f'{v}{u}', 'double_space': f'{v}  {u}', 'leading_space': f' {v} {u}', 'trailing_space': f'{v} {u} ',
              'unknown_unit': f'{v} ' + rng.choice(['furlong', 'X', 'mm', 'Pa', 'l', 'gram', 'moles', 'uu']),
              'unknown_prefix': f'{v} ' + rng.choice(['G', 'T', 'h', 'x', 'mm', 'K']) + rng.choice(['L', 'g', 'mol']),
              'wrong_case': f'{v} ' + rng.choice(['ml', 'ML', 'Mol', 'MOL', 'G', 'KG', 'l', 'UL']),
